@@ -259,7 +259,7 @@ func c18Single(ja bool, lo, hi string) c18Case {
 func c18Pad(v, w int) string { return fmt.Sprintf("%0*d", w, v) }
 
 var c18Lits = []string{"", "x", "ab", "host-", "_v", "srv", "/tmp/f", "A:", "-"}
-var c18Strs = []string{"a", "b", "foo", "", "Z9", "x-y", "07", "3"}
+var c18Strs = []string{"a", "b", "foo", "", "Z9", "x-y", "07", "3", "1-23", "4a5"}
 
 func (c18) Gen(seed int64, tier string, emit func(any)) {
 	thorough := tier == "thorough"
